@@ -73,6 +73,15 @@ Print Assumptions C12_census_at_fixed_point.
 Example C12_ex_bounds : forall p, In p ex_healthy3 -> isCreated p = true.
 Proof. intros p [<-|[<-|[<-|[]]]]; reflexivity. Qed.
 
+(* (6) the controller never writes anything of the StatefulSet but its status: for every API state, cache and fault
+   oracle the stored set after the reconcile is the stored set before, up to status and resourceVersion *)
+From ASTS Require Import KeepsSet.
+Theorem C12_reconcile_writes_status_only :
+  forall hashes api cache faults o log w',
+    reconcile hashes api cache faults = (o, log, w') -> spec_of (w_set api) = spec_of (w_set w').
+Proof. exact reconcile_keeps_spec. Qed.
+Print Assumptions C12_reconcile_writes_status_only.
+
 (* non-vacuity: a scale-in reconcile writes a status with the reconciled generation *)
 Example C12_ex :
   exists st rv e, In (CUpdateStatus st rv, e)
